@@ -1088,5 +1088,44 @@ func ruleExportCarriesReplayPosition(c *Ctx, r *Report) {
 			}
 		}
 	}
+	// ... and the resumed connection uses it: where the resume state is installed, a function is
+	// called that marks, in the replay detector, numbers taken from that position
+	if reads {
+		installs := 0
+		marked := false
+		for _, f := range c.Fns {
+			if !inModule(f) || len(f.Blocks) == 0 {
+				continue
+			}
+			var store ssa.Instruction
+			for _, b := range f.Blocks {
+				for _, in := range b.Instrs {
+					if st, ok := in.(*ssa.Store); ok {
+						if _, fld, _, okF := fieldOfAddr(st.Addr); okF && fld == "state" {
+							for _, l := range c.Origins(st.Val, 0) {
+								if _, lf, _, okL := fieldLoad(l); okL && lf == "ResumeState" {
+									store = in
+								}
+							}
+						}
+					}
+				}
+			}
+			if store == nil {
+				continue
+			}
+			installs++
+			for _, b := range f.Blocks {
+				for _, in := range b.Instrs {
+					if cl, ok := in.(*ssa.Call); ok && instrReaches(store, cl) {
+						if callee := cl.Call.StaticCallee(); callee != nil && c.marksOwnRecord(callee) {
+							marked = true
+						}
+					}
+				}
+			}
+		}
+		r.Check(installs > 0 && marked, rule, short(fn)+":receive-position-restored", c.pos(fn.Pos()), "the function that installs the resume state marks the exported receive position in the replay detector", "the receive position is exported but the resumed connection never marks it in its replay detector: a record delivered before the export is delivered again after the resume")
+	}
 	r.Check(reads, rule, short(fn)+":receive-position", c.pos(fn.Pos()), "the exported state is built from the receive position too", "the exported state is built without looking at what the connection has received (neither Common.RemoteSequenceNumber nor the replay detector is read): the resumed connection starts with an empty replay window and a record that was delivered before the export is delivered again when it is replayed after the resume")
 }
